@@ -178,6 +178,14 @@ theorem doc?_mem (s : RState) (r : NodeId) (d : DocRes) (h : s.doc? r = some d) 
 
 def AllDraft (D : Draft) (s : RState) : Prop := ∀ d ∈ s.docs, d.draft = D
 
+/-- when every Resolved has draft `D`, so has the one rooted at `r` -/
+theorem AllDraft.draftOf {D : Draft} {s : RState} (h : AllDraft D s) (r : NodeId) (hr : (s.doc? r).isSome = true) :
+    s.draftOf r = D := by
+  unfold RState.draftOf
+  cases hd : s.doc? r with
+  | none => rw [hd] at hr; cases hr
+  | some d => exact h d (doc?_mem s r d hd)
+
 theorem AllDraft.of_docs_eq {D : Draft} {a b : RState} (h : b.docs = a.docs) (ha : AllDraft D a) : AllDraft D b := by
   unfold AllDraft; rw [h]; exact ha
 
